@@ -338,9 +338,7 @@ class ScriptPolicy:
         while self.i < len(self.ev) and self.ev[self.i]["e"] in ("ds", "fms", "sel", "end"):
             e = self.ev[self.i]
             self.i += 1
-            if e["e"] == "end":
-                return evs + [None]
-            evs.append(e)
+            evs.append(None if e["e"] == "end" else e)
         if self.i < len(self.ev) and self.ev[self.i]["e"] == "wake":
             self.i += 1
             return evs
